@@ -123,10 +123,44 @@ def parents(f):
     return out
 
 
-def build(tree, f, label, *, kind=None, data_id=None, node_id=None):
+CREATION = ["pre"]  # "pre": nodes are created in document order; "bfs": level by level (creation order != document order)
+
+
+def build(tree, f, label, *, kind=None, data_id=None, node_id=None, creation=None):
     """Populate `tree` with the shape f. label(i) -> data for pre-order index i.
     kind(i) -> kind (typed trees), data_id(i) -> explicit id or None.
     Returns the list of nodes in pre-order."""
+    from nutree.tree import Tree as _Tree
+
+    if (creation or CREATION[0]) == "bfs":
+        # same tree, but the nodes come into being level by level: whatever the library keeps in creation order (registry,
+        # clone lists) is then not in document order
+        cnt = [0]
+
+        def number(kids):
+            out = []
+            for k in kids:
+                i = cnt[0]
+                cnt[0] += 1
+                out.append((i, number(k)))
+            return out
+
+        plan = number(f)
+        made = [None] * cnt[0]
+        queue = [(tree._root if isinstance(tree, _Tree) else tree, plan)]
+        while queue:
+            parent, items = queue.pop(0)
+            for i, sub in items:
+                kw = {}
+                if kind is not None:
+                    kw["kind"] = kind(i)
+                if data_id is not None and data_id(i) is not None:
+                    kw["data_id"] = data_id(i)
+                if node_id is not None and node_id(i) is not None:
+                    kw["node_id"] = node_id(i)
+                made[i] = parent.add(label(i), **kw)
+                queue.append((made[i], sub))
+        return made
     nodes = []
 
     def rec(parent, kids):
